@@ -122,7 +122,10 @@ func c07Gen(rng *rand.Rand, n int, args []string) {
 			k = 5 + rng.Intn(4) // up to lalr(8)
 		}
 		var g *cfg
-		if rng.Intn(3) == 0 {
+		shared := rng.Intn(5) == 0
+		if shared {
+			g = lalrkSharedCFG(rng)
+		} else if rng.Intn(3) == 0 {
 			g = lalrkMultiCFG(rng)
 		} else {
 			g = lalrkCFG(rng, k)
@@ -152,7 +155,10 @@ func c07Gen(rng *rand.Rand, n int, args []string) {
 		// (such a grammar does not "compile without errors": counted, no case); should it compile, the generated
 		// parser is judged like any other
 		gr.opt = rng.Intn(8) == 0 || (t.UsedLADepth == 0 && rng.Intn(2) == 0)
-		o := tmOpts{optimize: gr.opt}
+		o := tmOpts{optimize: gr.opt, minimize: shared || rng.Intn(3) == 0}
+		if o.minimize {
+			sx.Stat("gen_minimizeDFA", 1)
+		}
 		if gr.stream {
 			o.extra = append(o.extra, "tokenStream = true")
 		}
@@ -319,4 +325,25 @@ func c07Gen(rng *rand.Rand, n int, args []string) {
 	}
 	sx.Stat("gen_grammars_tried", tried)
 	sx.Stat("gen_grammars_compiled", compiled)
+}
+
+// lalrkSharedCFG: several conflict states that conflict on the SAME terminal but are resolved by different deep
+// rows: S: A x y1 | B x y2 | C x y3 ; A: t | w ; B: t ; C: w  (after t: A or B, after w: A or C; both on x).
+// With minimizeDFA the two conflict states must not be merged.
+func lalrkSharedCFG(rng *rand.Rand) *cfg {
+	nterms := 7
+	g := &cfg{nterms: nterms}
+	perm := rng.Perm(nterms - 1)
+	x, y1, y2, y3, t, w := 1+perm[0], 1+perm[1], 1+perm[2], 1+perm[3], 1+perm[4], 1+perm[5]
+	s, a, b, c := nterms, nterms+1, nterms+2, nterms+3
+	mid := []int{x}
+	if rng.Intn(2) == 0 {
+		mid = append(mid, x) // one more shared token: lalr(3)
+	}
+	alt := func(head, last int) cfgRule { return cfgRule{lhs: s, rhs: append(append([]int{head}, mid...), last)} }
+	g.rules = []cfgRule{alt(a, y1), alt(b, y2), alt(c, y3),
+		{lhs: a, rhs: []int{t}}, {lhs: a, rhs: []int{w}}, {lhs: b, rhs: []int{t}}, {lhs: c, rhs: []int{w}}}
+	g.nnonterms = 4
+	g.inputs = []cfgInput{{nt: s, eoi: true}}
+	return g.reduced()
 }
